@@ -70,7 +70,8 @@ def handleResolve (req : Sexp) : Sexp :=
     rx := fun s => !rxbad.contains s
     cwdFile := fun x => Path.abs (f "procwd") (Path.join2 cwd x)
     pathJoin := Path.join2
-    pkgPath := f "pkg" }
+    pkgPath := f "pkg"
+    loaderOk := match fieldArgs req "loaderok" with | [x] => asBool x | _ => false }
   let init := initConverter isVars (f "iface") (f "varfile") (f "pkgname") (f "pkg")
   let ls (k : String) := (fieldArgs req k).map sOf
   match resolveMethod env init (ls "cli") (ls "conv") (ls "meth") with
